@@ -103,6 +103,16 @@ REMEDY = {
     "C13-r6-2": "gridded SWAN files are C11's subject (write/read of lat x lon grids): decided by C11",
     "C18-r6-1": "C18 history: stats() with limits failing on an unknown statistic",
     "C18-r6-2": "new C18 probe: a Partition object reused after a rule-based split",
+    "C01-r7-1": "swe of a one-bin / empty spectrum is a documented degenerate case for C01 (inconclusive there): decided by C20's NaN allowance table",
+    "C01-r7-2": "C01 momd with any theta and orders 0-3",
+    "C02-r7-1": "C02 spectra stored rolled, descending or in WW3 order",
+    "C03-r7-1": "NOT CAUGHT: needs a missing (NaN) wind or depth, which is outside the property's 'all wind speed/direction/depth' inputs; not driven",
+    "C05-r7-2": "NOT CAUGHT by the quick tier: needs the stored direction sequence to start exactly on a bound of the direction window (1 of nd rotations) and a statistic taken on the split output",
+    "C08-r7-1": "NOT CAUGHT: declination-corrected TRIAXYS reads (read_triaxys with magnetic_variation) are not driven by C08 or C13",
+    "C08-r7-2": "memoised df: history defect, decided by C18",
+    "C14-r7-1": "C14 dask-backed station datasets",
+    "C14-r7-2": "C14 stations with a missing record (idw must propagate it)",
+    "C15-r7-1": "NOT CAUGHT: needs an undefined (NaN) parameter of the shape that is not selected at that position; not driven",
 }
 rows = []
 for m in sorted(glob.glob(os.path.join(ROOT, "seeded", "*", "meta.json"))):
